@@ -34,3 +34,6 @@ Example C10_nonvacuous :
   read_contract_multi 0 exec (Present 40) [1; 2; 3] = (Present 40, Err) /\
   read_contract_multi 0 exec (Present 40) [1; 3] = (Present 40, Ok [41; 44]).
 Proof. vm_compute. split; reflexivity. Qed.
+
+(* assumptions of the theorems above that had no report next to them *)
+Print Assumptions C10_estimate_gas_pure.
